@@ -1,21 +1,18 @@
-"""Native oracle for C10 (bounded layer): compiler output and diagnostics do not depend on the order in
-which the dataflow worklists happen to be processed.
+"""Native oracle for C10 (bounded layer): compiler output and diagnostics are the same in every interpreter run.
 
-The only source of run-to-run variation inside the compiler is the iteration / pop order of sets
-(hash seed for strings, memory addresses for basic blocks).  The worklists of cfg/analysis.py are sets
-of basic blocks; this oracle replaces `set` in that module by a set whose `pop()` follows a chosen
-priority over block indices (a legal behaviour of `set.pop()`), and compiles / checks every program
-of a family once per schedule, each schedule in a fresh interpreter process with the same
-PYTHONHASHSEED.  Required: for every program the outcome — SHA-1 of the serialised HUGR for accepted
-programs; error class and the variable it names for rejected ones — is the same under all schedules.
-(The LOCATION a 'not defined' diagnostic points at, and with it whether the message reads "is not
-defined" or "might be undefined", is excluded: it depends on the schedule, which is the recorded open
-finding C10-liveness-witness-order.)
+What varies between two runs of the same program is the string hash seed (iteration order of sets of
+strings / dataclasses over strings) and the heap layout (objects without __hash__ — basic blocks, AST
+nodes — hash by address).  Every program of a family is compiled / checked in fresh interpreter
+processes that differ in PYTHONHASHSEED and in the amount of memory allocated before guppylang is
+imported.  Required: for every program the outcome — SHA-1 of the serialised HUGR for accepted programs;
+error class, the variable it names and the line:column it points at for rejected ones — is the same in
+all runs.  (Until fix 989b0e5 the dataflow worklists popped blocks in address order and the last part
+failed: the recorded finding C10-liveness-witness-order, now closed.)
 
 Family: the statement family of contracts/cfgsem.py rewritten into Guppy (C03_oracle.to_guppy; 140+
 programs with loops, breaks, nested conditionals), hand-written programs with capturing nested
-functions and modifier blocks capturing several variables of different types, and a sample of the
-definedness family of C08_oracle (rejected and accepted programs over two variables).
+functions and modifier blocks capturing several variables of different types, programs with several
+undefined variables used in loops, and a sample of the definedness family of C08_oracle.
 """
 CHILD = r'''
 import guppy_plainbool
@@ -24,19 +21,9 @@ sys.path.insert(0, "/verif")
 I_ = INPUT
 import guppylang
 guppylang.enable_experimental_features()
-import guppylang_internals.cfg.analysis as A
-class Sched(set):
-    prio = {}
-    def pop(self):
-        b = min(self, key=lambda x: Sched.prio.get(x.idx, x.idx))
-        self.remove(b); return b
-rng = random.Random(I_["schedule"])
-p = list(range(400))
-if I_["schedule"] == 0: pass
-elif I_["schedule"] == 1: p.reverse()
-else: rng.shuffle(p)
-Sched.prio = dict(enumerate(p))
-A.set = Sched
+# vary what actually varies between interpreter runs: the string hash seed (set by the parent through
+# PYTHONHASHSEED) and the heap layout (addresses of the objects allocated from here on)
+_junk = [object() for _ in range(I_["schedule"] * 1237)] + [str(k) * (I_["schedule"] % 7 + 1) for k in range(I_["schedule"] * 311)]
 from guppylang_internals.error import GuppyError
 from contracts import cfgsem as S
 from contracts.C03_oracle import ORACLE as O3
@@ -44,6 +31,21 @@ ns = {}
 exec(O3.split("def terminating")[0].replace("import guppy_plainbool", ""), ns)      # HELPERS, to_guppy, HEAD
 
 HAND = [
+"""@guppy
+def h5(b: bool) -> int:
+    z = 0
+    while b:
+        z = z + p
+        z = z + q
+    return q + p
+""",
+"""@guppy
+def h6(b: bool) -> int:
+    z = 0
+    while b:
+        z = x
+    return x
+""",
 """@guppy
 def h0(b: bool) -> int:
     alpha = 1; beta = 2.5; gamma = True
@@ -114,10 +116,9 @@ def outcome(f):
     except GuppyError as e:
         err = e.error
         cls = type(err).__name__
-        # which of the two 'Variable not defined' diagnostics is produced follows the witness block of the
-        # liveness result (use where the variable is never / only sometimes assigned): recorded open finding
-        cls = {"VarMaybeNotDefinedError": "Var[Maybe]NotDefinedError", "VarNotDefinedError": "Var[Maybe]NotDefinedError"}.get(cls, cls)
-        return "error:" + cls + ":" + str(getattr(err, "var", getattr(err, "ident", getattr(err, "place", ""))))
+        sp = getattr(err, "span", None)
+        loc = f"{getattr(sp, 'lineno', '?')}:{getattr(sp, 'col_offset', '?')}" if sp is not None and hasattr(sp, "lineno") else (f"{sp.start.line}:{sp.start.column}" if sp is not None and hasattr(sp, "start") else "?")
+        return "error:" + cls + ":" + str(getattr(err, "var", getattr(err, "ident", getattr(err, "place", "")))) + "@" + loc
     except Exception as ex:
         return "crash:" + type(ex).__name__
 # (a) control-flow family
